@@ -517,3 +517,25 @@ PROPS["C07"]["suites"] += [{"name": "clock", "quick": 1500, "thorough": 30000}]
 PROPS["C06"]["suites"] += [{"name": "tweener", "quick": 1500, "thorough": 30000}]
 # C11: real recursive effects (delay sub-chunking, reverb) across slice boundaries — split-vs-whole oracles of the effect suites.
 PROPS["C11"]["suites"] += [{"name": "fxb", "quick": 1500, "thorough": 20000}, {"name": "fxa", "quick": 1000, "thorough": 20000}]
+
+# --- the whole-system twin (suite `syscore`): the mixer / renderer model instantiated with the REAL component models
+# (static sounds, the eight effects, clocks, LFO / tweener modulators) is compared bit for bit with kira on complete
+# scenes driven through the public API.  It serves C01 (what the device receives for whole scenes), C02 (signal flow
+# with real components) and C11 (real-code buffer-size invariance oracle with real components).
+PROPS["C01"]["suites"] += [{"name": "syscore", "quick": 1200, "thorough": 30000}]
+PROPS["C02"]["suites"] += [{"name": "syscore", "quick": 600, "thorough": 10000}]
+PROPS["C11"]["suites"] += [{"name": "syscore", "quick": 600, "thorough": 10000}]
+PROPS["C01"]["level_text"] += (
+    " WHOLE-SYSTEM TWIN (suite syscore): the mixer/renderer model instantiated with the real component models (static sounds, "
+    "the eight effects with nested delay feedback chains, clocks and LFO/tweener modulators in the renderer's chunk order, "
+    "sample-rate changes) runs as a Float twin bit-exact against kira through the public API on complete generated scenes "
+    "(every device sample, sound state/position, track state, resource count, clock time); Lean theorems about that "
+    "instantiated model: the real components are length preserving (C01_real_components_length_preserving), the scratch-buffer "
+    "invariant holds in every reachable state for all scenes and histories (C01_system_invariant), every callback returns exactly "
+    "frames*channels samples in [-1,1] with mono = mean and extra channels 0 (C01_system_output_wellformed), every live sound and "
+    "effect is asked for each frame exactly once in slices <= ibs (C01_system_each_component_once)")
+PROPS["C01"]["level_note"] += (
+    "; the whole-system twin covers static sounds, the eight effects, track trees/sends, clocks, LFO/tweener modulators and rate "
+    "changes - NOT streaming sounds, spatial tracks/listeners or exhausted capacities (those stay with suite system); real components' "
+    "chunk-freedom is proved for depth-0 effects at rest only (C01_real_components_chunk_free_partial), the buffer-size invariance of "
+    "whole real scenes is checked on kira itself by the bit-exact oracle buffer_size_invariance")
